@@ -314,6 +314,14 @@ def method_call(self, name, e, st, spec):
     f = e.func
     if not isinstance(f, ast.Attribute):
         return NotImplemented
+    if isinstance(f.value, ast.Call) and ast.unparse(f.value) == "super()" and not spec:
+        # super().m(...) inside a method of class C: the contract of m in C's declared base classes, same receiver
+        cls = self.qualname.partition("::")[2].split(".")[0]
+        for base in CLASS_BASES.get(cls, []):
+            q = f"{CLASS_FILE[base]}::{base}.{f.attr}"
+            if q in self.registry:
+                return self.call_contract(q, e, st, recv=st.env["self"])
+        raise EngineError(f"super().{f.attr}: no contract in the bases of {cls}")
     # module functions we model are handled in MODELS; here only receivers that evaluate to values
     if isinstance(f.value, ast.Name) and f.value.id in ("np", "numpy", "nb", "cp", "logging", "random", "os", "csv", "json", "time") \
             and f.value.id not in st.env:
